@@ -8,7 +8,7 @@
   lemmas), ESDTPause / ESDTUnPause write the flag pair into the system account (worth 0 as a balance).
   Used by the one world that mixes all 23 functions (Proofs/Unified.lean).
 -/
-import Proofs.SetClosed
+import Proofs.Base
 import Proofs.SupplyHistory
 namespace Esdt
 
